@@ -641,7 +641,9 @@ fn int_values(key: &str, v: u64) -> Vec<u64> {
         xs = vec![0, v.wrapping_sub(1), v.wrapping_add(1), 7, 8, 28, 63, 64, 255];
     }
     if key == "degree_bits" {
-        xs.extend([26, 27]);
+        // 26, 27: around the two-adicity; 29..32: the window that /repo ca07f07 leaves (bounded by the
+        // field bit width 31, not the two-adicity 27) and the first value above it
+        xs.extend([26, 27, 29, 30, 31, 32]);
     }
     if key == "lookups" {
         xs = vec![v.wrapping_sub(1), v.wrapping_add(1)]; // carry another instance's lookups
@@ -803,21 +805,33 @@ struct Case {
     /// checks in the model; for the oracle a pair only counts when neither alteration alone
     /// already gives that outcome)
     second: Option<(Vec<Seg>, Mutation)>,
+    /// further alterations applied after `second` (corpus files only, key `more`): a shape that needs
+    /// more than two edits of an honest base, e.g. a proof without fold phase. Such a case is
+    /// compared by outcome (`expect_outcome`) and by its model line only; the violation oracle,
+    /// which attributes an outcome to one of at most two alterations, does not classify it.
+    more: Vec<(Vec<Seg>, Mutation)>,
     from_corpus: Option<String>,
 }
 
 fn apply_case(root: &Value, c: &Case) -> Option<Value> {
     let v = apply(root, &c.path, &c.m)?;
-    match &c.second {
-        None => Some(v),
-        Some((p, m)) => apply(&v, p, m),
+    let mut v = match &c.second {
+        None => v,
+        Some((p, m)) => apply(&v, p, m)?,
+    };
+    for (p, m) in &c.more {
+        v = apply(&v, p, m)?;
     }
+    Some(v)
 }
 
 fn case_json(base: &str, c: &Case) -> Value {
     let mut v = json!({"base": base, "path": path_json(&c.path), "mutation": mutation_json(&c.m)});
     if let Some((p, m)) = &c.second {
         v["second"] = json!({"path": path_json(p), "mutation": mutation_json(m)});
+    }
+    if !c.more.is_empty() {
+        v["more"] = Value::Array(c.more.iter().map(|(p, m)| json!({"path": path_json(p), "mutation": mutation_json(m)})).collect());
     }
     v
 }
@@ -829,7 +843,13 @@ fn case_from(v: &Value, bases: &[Base]) -> Option<Case> {
         Some(s) if !s.is_null() => Some((path_from(s.get("path")?)?, mutation_from(s.get("mutation")?)?)),
         _ => None,
     };
-    Some(Case { base, path: path_from(v.get("path")?)?, m: mutation_from(v.get("mutation")?)?, second, from_corpus: None })
+    let mut more = vec![];
+    if let Some(a) = v.get("more").and_then(Value::as_array) {
+        for s in a {
+            more.push((path_from(s.get("path")?)?, mutation_from(s.get("mutation")?)?));
+        }
+    }
+    Some(Case { base, path: path_from(v.get("path")?)?, m: mutation_from(v.get("mutation")?)?, second, more, from_corpus: None })
 }
 
 /// The unvalidated input a violation is attributed to: the generic path of the altered node with
@@ -850,6 +870,31 @@ pub fn site_of(generic_path: &str) -> String {
         return "table-metadata".into();
     }
     p
+}
+
+/// Class of a crash attributed to `site`. For `degree_bits` the part of finding F9a that /repo
+/// ca07f07 leaves open gets its own class: the crash is the `unwrap()` inside one of the PCS domain
+/// constructors (`natural_domain_for_degree`, `create_disjoint_domain`) and the largest declared
+/// `degree_bits` lies in `TWO_ADICITY - 1 ..= VAL_BITS` (with the bases' `log_quotient_degree <= 1`
+/// that is `TWO_ADICITY < degree_bits + log_quotient_degree <= Val::bits()`). Every other crash on an
+/// altered `degree_bits` (a shift overflow, a value above the bit width, an abort) keeps the plain
+/// class `panic:degree_bits`, which no known finding matches any more.
+fn panic_class(site: &str, o: &Outcome, mutant: Option<&Value>) -> String {
+    if site == "degree_bits" {
+        if let (Outcome::Panic { file, msg, .. }, Some(mv)) = (o, mutant) {
+            let db = [&mv["proof"]["degree_bits"], &mv["proof"]["proof"]["degree_bits"]];
+            let max = db.iter().flat_map(|v| match v {
+                Value::Array(a) => a.iter().filter_map(Value::as_u64).collect::<Vec<_>>(),
+                v => v.as_u64().into_iter().collect(),
+            }).max();
+            let in_window = max.is_some_and(|m| m.saturating_add(1) >= shape::TWO_ADICITY as u64 && m <= shape::VAL_BITS as u64);
+            let in_domain_ctor = msg.contains("Option::unwrap()") && (file.ends_with("two_adic_pcs.rs") || file.ends_with("domain.rs"));
+            if in_window && in_domain_ctor {
+                return "panic:degree_bits:above-two-adicity-within-field-bits".into();
+            }
+        }
+    }
+    format!("panic:{site}")
 }
 
 fn outcome_line(o: &Outcome, honest: &Fingerprint) -> String {
@@ -928,7 +973,7 @@ pub fn main(args: &crate::Args) {
                     g = keep;
                 }
                 for (p, m) in g {
-                    cases.push(Case { base: bi, path: p, m, second: None, from_corpus: None });
+                    cases.push(Case { base: bi, path: p, m, second: None, more: vec![], from_corpus: None });
                 }
             }
         }
@@ -957,7 +1002,7 @@ pub fn main(args: &crate::Args) {
             if p1 == p2 && m1 == m2 {
                 continue;
             }
-            cases.push(Case { base: bi, path: p1, m: m1, second: Some((p2, m2)), from_corpus: None });
+            cases.push(Case { base: bi, path: p1, m: m1, second: Some((p2, m2)), more: vec![], from_corpus: None });
         }
     }
 
@@ -1053,11 +1098,14 @@ pub fn main(args: &crate::Args) {
     // honest lines first: the model must say `ok same` for the well-formed shape of every base
     let mut cases_f = std::fs::File::create(format!("{out}/c15.cases")).unwrap();
     let mut impl_f = std::fs::File::create(format!("{out}/c15.impl")).unwrap();
+    // one description per driver line (base, generic path, alteration[, second]): for reading a disagreement
+    let mut desc_f = std::fs::File::create(format!("{out}/c15.desc")).unwrap();
     let mut lines = 0usize;
     for b in &bases {
         if let Some(l) = b.shape_line(&b.input, true) {
             writeln!(cases_f, "{l}").unwrap();
             writeln!(impl_f, "ok same").unwrap();
+            writeln!(desc_f, "{} honest", b.name).unwrap();
             lines += 1;
         }
     }
@@ -1107,6 +1155,8 @@ pub fn main(args: &crate::Args) {
         if let Some(l) = &r.shape {
             writeln!(cases_f, "{l}").unwrap();
             writeln!(impl_f, "{ol}").unwrap();
+            writeln!(desc_f, "{} {} {} {} {}", b.name, gp, c.m.name(), c.second.as_ref().map(|(p, m)| format!("+ {} {}", generic_path(p), m.name())).unwrap_or_default(),
+                     r.detail.replace('\n', " ")).unwrap();
             lines += 1;
         } else {
             *hist.entry("no-shape-line (alteration outside the modelled shape vector)".into()).or_default() += 1;
@@ -1130,7 +1180,7 @@ pub fn main(args: &crate::Args) {
             sc.is_null() || sc["instances"].get(*i).is_none_or(Value::is_null)
         };
         let single = |site: &str, params: bool| match &r.outcome {
-            Outcome::Panic { .. } | Outcome::Abort(_) => Some(format!("panic:{site}")),
+            Outcome::Panic { .. } | Outcome::Abort(_) => Some(panic_class(site, &r.outcome, apply_case(&b.input, c).as_ref())),
             // parameters are the verifier's own choice: any accepted parameter set is the
             // well-formed circuit *for those parameters*; only a crash is a violation there
             Outcome::Ok(fp) if *fp != b.honest && !params => Some(format!("accepted-malformed:{site}")),
@@ -1138,6 +1188,10 @@ pub fn main(args: &crate::Args) {
         };
         let key = |p: &[Seg], m: &Mutation| format!("{}|{}|{}", b.name, path_json(p), mutation_json(m));
         let class = match &c.second {
+            _ if !c.more.is_empty() => {
+                *hist.entry("multi-alteration corpus case (outcome + model line only)".into()).or_default() += 1;
+                None
+            }
             None => {
                 let free = matches!(&r.outcome, Outcome::Ok(fp) if *fp != b.honest) && free_degree(&c.path);
                 if free {
